@@ -9,9 +9,9 @@
 (* SensibleConfs is the configuration space of a cfg.                      *)
 (***************************************************************************)
 EXTENDS Referrers, ReferrersProp
-CONSTANTS Modes, Caches, Pages, TagDels, SubjSel, Spells
+CONSTANTS Modes, Caches, Pages, TagDels, SubjSel, Spells, Dopts
 
-SensibleConfs == ConfSpace(Modes, Caches, Pages, TagDels, SubjSel, Spells)
+SensibleConfs == ConfSpace(Modes, Caches, Pages, TagDels, SubjSel, Spells, Dopts)
 
 P1 == <<"p1">>
 P2 == <<"p1", "p2">>
